@@ -139,6 +139,9 @@ func (pe *propertiesEncoder) encodeMap(p *properties.Properties, kids []*Candida
 	for index := 0; index < len(kids); index = index + 2 {
 		key := kids[index]
 		value := kids[index+1]
+		if key.Kind != ScalarNode {
+			return fmt.Errorf("cannot encode a map key that is not a scalar (%v) as properties", key.GetNicePath())
+		}
 		err := pe.doEncode(p, value, pe.appendPath(path, key.Value), key)
 		if err != nil {
 			return err
